@@ -224,3 +224,66 @@ def control(repo):
     new = replace_span(repo.read(G.FORMAT_EMB), a, "verif_unused_param")
     r2 = Repo(repo.root, overlay={G.FORMAT_EMB: new})
     return bool(fmtlinear(r2).findings)
+
+
+# ---------------------------------------------------------------------------------------------------------
+# R-FMTORDER: a formatter emits its children in the order of the production's right-hand side
+def _content_sequence(node, fnode, params, depth=0, seen=()):
+    """Parameter names in the order in which their text is placed into `node` (source order of the expression;
+    locals assigned once are expanded in place; conditions of `x if c else y` carry no text)."""
+    out = []
+
+    class V(ast.NodeVisitor):
+        def visit_Name(self, n):
+            if n.id in params:
+                out.append(n.id)
+            elif n.id not in seen and depth < 6:
+                defs = [x for x in walk_no_nested_funcs(fnode) if isinstance(x, ast.Assign)
+                        and any(isinstance(t, ast.Name) and t.id == n.id for t in x.targets)]
+                if len(defs) == 1:
+                    out.extend(_content_sequence(defs[0].value, fnode, params, depth + 1, seen + (n.id,)))
+
+        def visit_IfExp(self, n):
+            self.visit(n.body)
+            self.visit(n.orelse)
+
+        def visit_Call(self, n):
+            self.visit(n.func)
+            for a in sorted(list(n.args) + [k.value for k in n.keywords], key=lambda x: (x.lineno, x.col_offset)):
+                self.visit(a)
+
+    V().visit(node)
+    return out
+
+
+def fmtorder(repo):
+    """The formatter may change whitespace only, so the tokens under the children of a production must reach the
+    output in the production's order.  Children are the positional parameters, in right-hand-side order; the
+    text of every returned value must mention them in non-decreasing position (children that can only hold
+    Indent/Dedent/newline are ignored)."""
+    res = RuleResult("R-FMTORDER")
+    g = G.ir_grammar(repo)
+    nonblank = nonblank_symbols(g["productions"])
+    fm = G.fmt_grammar(repo)
+    done = set()
+    for prod, f, dec, dnode in fm.entries:
+        if f.node.args.vararg is not None:
+            continue  # *elements helpers: order is checked by R-FMTLINEAR (no indexing, no reversed/sorted)
+        lhs, rhs = prod
+        pos = [a.arg for a in f.node.args.args]
+        for n in walk_no_nested_funcs(f.node):
+            if not (isinstance(n, ast.Return) and n.value is not None):
+                continue
+            res.instances += 1
+            s = _content_sequence(n.value, f.node, pos)
+            idx = [(pos.index(x), x) for x in s if pos.index(x) < len(rhs) and rhs[pos.index(x)] in nonblank]
+            for (a, an), (b, bn) in zip(idx, idx[1:]):
+                if a > b and (f.name, an, bn) not in done:
+                    done.add((f.name, an, bn))
+                    res.add(f"{G.FORMAT_EMB}|{f.name}|{lhs}|{an}>{bn}", f"formatter {f.name} for '{lhs} -> {' '.join(rhs)}' places "
+                            f"`{an}` (child #{a}, {rhs[a]}) before `{bn}` (child #{b}, {rhs[b]}): the tokens of the formatted file "
+                            "are no longer in the order of the source (a Documentation or Comment token runs to the end of "
+                            "the line and swallows whatever is moved behind it)", G.FORMAT_EMB, n.lineno, f.name)
+    res.samples = [f"{len(fm.entries)} formatter registrations, every return keeps children in right-hand-side order"]
+    res.analysed = [G.FORMAT_EMB, G.MODULE_IR]
+    return res
